@@ -207,6 +207,10 @@ func checkC05(p *Program, r *Report) {
 						bad = "`/` is not computed in float64"
 					case (op == "<<" || op == ">>") && !strings.Contains(ky, "uint"):
 						bad = "the shift count is not taken as unsigned"
+					case strings.Contains(kx, "→"):
+						bad = "the left operand is converted (" + kx + ") before the operator is applied: the result is not the one Go computes on int64/float64 (a right shift of a negative number becomes logical, for instance)"
+					case strings.Contains(ky, "→") && op != "<<" && op != ">>":
+						bad = "the right operand is converted (" + ky + ") before the operator is applied"
 					default:
 						fl, fr := operandField(m, va, h, vx, 0), operandField(m, va, h, vy, 0)
 						if fl != "" && fr != "" && fl != "mixed" && fr != "mixed" {
